@@ -12,6 +12,17 @@ type Function struct {
 	Name      string
 	Value     func(...Object) Object
 	ForUpdate bool
+	// Operands is the number of operands the function takes
+	Operands int
+}
+
+// Call applies the function to its arguments after checking their number
+func (fn *Function) Call(args ...Object) Object {
+	if len(args) != fn.Operands {
+		return newError("incorrect number of operands for operator or function; operator or function: %s, number of operands: %d", fn.Name, len(args))
+	}
+
+	return fn.Value(args...)
 }
 
 // Inspect returns the readable value of the object
@@ -32,36 +43,44 @@ func (fn *Function) ToDynamoDB() types.Item {
 var (
 	functions = map[string]*Function{
 		"attribute_exists": &Function{
-			Name:  "attribute_exists",
-			Value: attributeExists,
+			Name:     "attribute_exists",
+			Operands: 1,
+			Value:    attributeExists,
 		},
 		"attribute_not_exists": &Function{
-			Name:  "attribute_not_exists",
-			Value: attributeNotExists,
+			Name:     "attribute_not_exists",
+			Operands: 1,
+			Value:    attributeNotExists,
 		},
 		"attribute_type": &Function{
-			Name:  "attribute_type",
-			Value: attributeType,
+			Name:     "attribute_type",
+			Operands: 2,
+			Value:    attributeType,
 		},
 		"begins_with": &Function{
-			Name:  "begins_with",
-			Value: beginsWith,
+			Name:     "begins_with",
+			Operands: 2,
+			Value:    beginsWith,
 		},
 		"contains": &Function{
-			Name:  "contains",
-			Value: contains,
+			Name:     "contains",
+			Operands: 2,
+			Value:    contains,
 		},
 		"size": &Function{
-			Name:  "size",
-			Value: objectSize,
+			Name:     "size",
+			Operands: 1,
+			Value:    objectSize,
 		},
 		"if_not_exists": &Function{
 			Name:      "if_not_exists",
+			Operands:  2,
 			Value:     ifNotExists,
 			ForUpdate: true,
 		},
 		"list_append": &Function{
 			Name:      "list_append",
+			Operands:  2,
 			Value:     listAppend,
 			ForUpdate: true,
 		},
